@@ -164,6 +164,8 @@ class Sym:
                 return ("max", self.ex(n.args[0]), self.ex(n.args[1]))
             if name == "np.abs" and len(n.args) == 1:
                 return ("abs", self.ex(n.args[0]))
+            if name == "np.exp" and len(n.args) == 1:
+                return ("exp", self.ex(n.args[0]))
             if name == "np.where" and len(n.args) == 3:
                 return ("if", self.ex(n.args[0]), self.ex(n.args[1]), self.ex(n.args[2]))
             if name == "np.max" and len(n.args) == 1:
@@ -237,6 +239,8 @@ def coq(t):
         return "(Rmax %s %s)" % (coq(t[1]), coq(t[2]))
     if k == "abs":
         return "(Rabs %s)" % coq(t[1])
+    if k == "exp":
+        return "(exp %s)" % coq(t[1])
     if k == "lt":
         return "(Rltb %s %s)" % (coq(t[1]), coq(t[2]))
     if k == "if":
@@ -272,6 +276,8 @@ def ev(t, env):
         return max(ev(t[1], env), ev(t[2], env))
     if k == "abs":
         return abs(ev(t[1], env))
+    if k == "exp":
+        return math.exp(ev(t[1], env))
     if k == "lt":
         return ev(t[1], env) < ev(t[2], env)
     if k == "if":
@@ -980,6 +986,33 @@ def read_tangent(repo):
     return {"diag": result[1], "a": result[2], "b": result[3], "line": fn.lineno, "file": rel}
 
 
+def read_hardening(repo):
+    """IsotropicHardening.Linear / Voce: the three lambdas (psi, R, dR) and the constructor's
+    parameter assertions (as source text, for the record)."""
+    tree, src, rel = parse(repo, "EasyFEA/Models/InElastic/IsotropicHardening.py")
+    out = {"file": rel}
+    for name, params in (("Linear", ["H"]), ("Voce", ["Q", "b"])):
+        fn = find_func(tree, name)
+        if [a.arg for a in fn.args.args] != params:
+            fail(fn, "%s%s expected" % (name, tuple(params)), rel)
+        rets = [n for n in fn.body if isinstance(n, ast.Return)]
+        if len(rets) != 1 or not (isinstance(rets[0].value, ast.Call) and S_dotted(rets[0].value.func) == "IsotropicHardening" and len(rets[0].value.args) == 3 and not rets[0].value.keywords):
+            fail(fn, "%s must return IsotropicHardening(psi, R, dR)" % name, rel)
+        if any(isinstance(n, ast.Assign) for n in fn.body):
+            fail(fn, "%s re-binds a name" % name, rel)
+        trees = []
+        for lam_ in rets[0].value.args:
+            if not (isinstance(lam_, ast.Lambda) and len(lam_.args.args) == 1):
+                fail(lam_, "lambda of one argument expected", rel)
+            S = Sym(src, rel, {}, [])
+            S.env = {q: ("v", q) for q in params}
+            S.env[lam_.args.args[0].arg] = ("v", "p")
+            trees.append(S.ex(lam_.body))
+        asserts = [ast.get_source_segment(src, n.test) for n in fn.body if isinstance(n, ast.Assert)]
+        out[name] = {"psi": trees[0], "R": trees[1], "dR": trees[2], "asserts": asserts, "params": params, "line": fn.lineno}
+    return out
+
+
 class SymSub(Sym):
     """Sym that also resolves subscripted fields (`x[..., ZZ]`) through a table of source texts."""
 
@@ -1149,7 +1182,7 @@ def read_scale_tie(repo):
 def read_all(repo):
     return {"phi": read_phi(repo), "solve": read_solve(repo), "yield": read_yield(repo),
             "writers": read_state_writers(repo), "arg_stores": rebinds_before_store(repo),
-            "flag": read_spectral_flag(repo), "ps": read_plane_stress(repo), "tangent": read_tangent(repo), "scale": read_scale_tie(repo)}
+            "flag": read_spectral_flag(repo), "ps": read_plane_stress(repo), "tangent": read_tangent(repo), "scale": read_scale_tie(repo), "hardening": read_hardening(repo)}
 
 
 def emit_coq(T):
@@ -1198,6 +1231,12 @@ def emit_coq(T):
     L.append(define("gen_tan_a", tg["a"], ["lam", "y", "d", "theta", "slope", "drdtheta", "active"]))
     L.append(define("gen_tan_b", tg["b"], ["lam", "y", "d", "phi"]))
     L.append(define("gen_ret_d", so["norate"]["ret_d"], ["lam", "theta"]))
+    hd = T["hardening"]
+    for nm in ("Linear", "Voce"):
+        h = hd[nm]
+        L.append("(* IsotropicHardening.%s, %s line %d; constructor asserts: %s *)" % (nm, hd["file"], h["line"], "; ".join(h["asserts"])))
+        for k in ("psi", "R", "dR"):
+            L.append(define("gen_%s_%s" % (nm.lower(), k), h[k], h["params"] + ["p"]))
     y = T["yield"]
 
     def mat(M, sym=False):
